@@ -606,6 +606,10 @@ def rule_spread_once(check):
             sp = ff["spread"]
             okf = sp.get("k") == "Call" and (hir.peel(sp["f"]).get("res", {}).get("ctor_path") or "").split("::")[-1] == "Some" and all(r[0] == "param" and r[2] == 1 for r, p in pv.origins(f, ff["expr"]))
         check.expect(gated and one and okf, R, R + "/array-wrap", hir.loc(n), "Spread kind: temp = [...operand]", "spread temporaries are not assigned `[...operand]` under IdentKind::Spread (gated=%s, one element=%s)" % (gated, one))
+        # ... for every spread operand: nothing but the kind decides (a call result, a `new` or an array
+        # spread twice is expanded twice: a one-shot iterator yields nothing the second time)
+        extra = [a for a in atoms if a[0] not in ("closure",) and not (a[0] == "eq" and any(isinstance(x, str) and x.endswith("IdentKind::Spread") for x in a[1:3]))]
+        check.expect(not extra, R, R + "/array-wrap-every-spread", hir.loc(n), "every Spread operand gets the copy", "the `[...operand]` copy of a spread operand additionally depends on %s: an operand that is not copied is spread twice - in the call and in the hook's argument list" % "; ".join(re.sub(r"#\d+", "", (hir.describe(a[-1]) if isinstance(a[-1], dict) and "k" in a[-1] else str(a[:4])))[:80] for a in extra))
     g = prog.fn("IdentProvider::get_expr_or_spread")
     lits = [n for n in hir.walk(g.body) if n.get("k") == "Struct" and (n["res"].get("path") or "").endswith("ExprOrSpread")]
     for n in lits:
